@@ -63,7 +63,7 @@ func (e *Explorer) applyEnv(s *SNode, a *Action, env *Env, salt string) (*SNode,
 	if env.Setup != nil {
 		env.Setup()
 	}
-	nd := e.W.OpenWith(s.N, x.Rnd, x.Now, e.W.Miners[a.Miner%len(e.W.Miners)], 1000+x.Rnd, strings.Join(s.Path, "/")+"/"+a.Name+salt, sc)
+	nd := e.W.OpenWith(s.N, x.Rnd, x.Now, e.W.Miners[a.Miner%len(e.W.Miners)], 1000+x.Rnd, strings.Join(s.Path, "/")+"/"+a.Name, sc) // same block hash in every environment
 	t := e.W.Txn(*spec)
 	evs, err := e.W.Exec(nd, t)
 	e.W.CloseBlock(nd)
